@@ -222,7 +222,8 @@ pub fn near_copy(v: &RefValue, sel: u16, kind: u8) -> RefValue {
 }
 
 pub fn laws_property(vals: &[RefValue; 3]) -> Result<(bool, Vec<&'static str>), String> {
-	let v: Vec<Value> = vals.iter().enumerate().map(|(i, r)| if i % 2 == 0 { r.to_value() } else { r.to_value_push() }).collect();
+	let salt = crate::framework::hash64(&format!("{:?}", vals[0]).len());
+	let v: Vec<Value> = vals.iter().enumerate().map(|(i, r)| r.to_value_route((salt as u8).wrapping_add(i as u8 * 5))).collect();
 	let mut any_equal = false;
 	let mut any_diff = false;
 	for i in 0..3 {
